@@ -103,6 +103,12 @@ func S4Provenance(p *core.Program, a *spec.Anchors, r *core.Report) {
 					case "delete", "clear":
 						sites = append(sites, s4Site{fn, in, cc.Args[0], s45_builtinName(cc)})
 					}
+					// standard-library helpers that write into the backing array of their first argument
+					if callee := cc.StaticCallee(); callee != nil && len(cc.Args) > 0 {
+						if name, ok := stdInPlace(callee); ok {
+							sites = append(sites, s4Site{fn, in, cc.Args[0], name})
+						}
+					}
 				}
 			}
 		}
@@ -377,3 +383,32 @@ func (c *s4ctx) nodeFor(k s4Obl) *s4Node {
 }
 
 var _ = types.Identical
+
+// stdInPlace recognises the in-place helpers of packages slices and sort (they shift, sort or overwrite the
+// elements of the slice they are given; Insert/Replace do so whenever the capacity allows).
+func stdInPlace(fn *ssa.Function) (string, bool) {
+	pk := fn.Pkg
+	if pk == nil && fn.Origin() != nil {
+		pk = fn.Origin().Pkg
+	}
+	if pk == nil {
+		return "", false
+	}
+	name := fn.Name()
+	if i := strings.Index(name, "["); i >= 0 {
+		name = name[:i]
+	}
+	switch pk.Pkg.Path() {
+	case "slices":
+		switch name {
+		case "Insert", "Delete", "DeleteFunc", "Replace", "Compact", "CompactFunc", "Reverse", "Sort", "SortFunc", "SortStableFunc":
+			return "slices." + name, true
+		}
+	case "sort":
+		switch name {
+		case "Ints", "Float64s", "Strings", "Slice", "SliceStable", "Sort", "Stable":
+			return "sort." + name, true
+		}
+	}
+	return "", false
+}
